@@ -226,3 +226,41 @@ def vec_eq_clauses(a, b):
         x, y = za.get(k, 0), zb.get(k, 0)
         out.append((k, sym.eq(x, y) if (sym.is_sym(x) or sym.is_sym(y)) else (x == y)))
     return out
+
+
+def vec_provably_equal(a, b):
+    """equal under the current path condition (syntactic first, then a validity query to the path's solver)"""
+    if vec_syntactic_equal(a, b):
+        return True
+    p = sym.current_path()
+    if p is None:
+        return False
+    cl = [c for _, c in vec_eq_clauses(a, b)]
+    terms = [c.t for c in cl if isinstance(c, SBool)]
+    if any((not isinstance(c, SBool)) and (not c) for c in cl):
+        return False
+    if not terms:
+        return True
+    p.solver.push()
+    p.solver.add(z3.Not(z3.And(*terms)))
+    r = p.solver.check()
+    p.solver.pop()
+    return r == z3.unsat
+
+
+def scalar_provably_equal(a, b):
+    if not (sym.is_sym(a) or sym.is_sym(b)):
+        return a == b
+    from vc.discharge import poly, _padd
+
+    cache = {}
+    if _padd(poly(SNum.lift(a).t, cache), poly(SNum.lift(b).t, cache), -1) == {}:
+        return True
+    p = sym.current_path()
+    if p is None:
+        return False
+    p.solver.push()
+    p.solver.add(SNum.lift(a).t != SNum.lift(b).t)
+    r = p.solver.check()
+    p.solver.pop()
+    return r == z3.unsat
